@@ -33,7 +33,8 @@ pub fn run(rng: &mut Rng, n: usize, out: &mut Out, which: &str) {
                 let b = match rng.below(7) {
                     0 | 1 => g.playout(rng, 120),
                     2 => match promo_mate_position(&g, rng) { Some(b) => { out.count("promotion_family_candidates"); b } None => continue },
-                    3 | 4 => match minor_corner(&g, rng) { Some(b) => { out.count("minor_piece_corner_candidates"); b } None => continue },
+                    3 => match minor_corner(&g, rng) { Some(b) => { out.count("minor_piece_corner_candidates"); b } None => continue },
+                    4 => match discovered_battery(&g, rng) { Some(b) => { out.count("discovered_check_battery_candidates"); b } None => continue },
                     _ => match heavy_small(&g, rng) { Some(b) => b, None => continue },
                 };
                 let mut b = b;
@@ -561,6 +562,46 @@ fn minor_corner(g: &Gen, rng: &mut Rng) -> Option<Board> {
     for s in 0..64 { if let Some((c, p)) = occ[s] { pcs[p.index()] |= 1 << s; if c == Color::White { white |= 1 << s } else { black |= 1 << s } } }
     // attacker to move (mate in one) or defender to move (a capture / move that allows mate next to safe ones)
     let side = if rng.chance(2, 3) { att } else { def };
+    let b = board_from_raw(pcs, white, black, side, 0, None, 0, 1)?;
+    if crate::refchess::valid(&b) { Some(b) } else { None }
+}
+
+/// a battery aimed at a cornered king: slider, ONE own man in between, king — moving that man away is a quiet move that gives
+/// check only by discovery; an enemy heavy piece hangs somewhere, so that a capture is ordered first and raises alpha
+fn discovered_battery(g: &Gen, rng: &mut Rng) -> Option<Board> {
+    use crate::pieces::{Color, Piece};
+    let mut occ = [None::<(Color, Piece)>; 64];
+    let (att, def) = if rng.chance(1, 2) { (Color::White, Color::Black) } else { (Color::Black, Color::White) };
+    let corner = *rng.pick(&[0usize, 7, 56, 63]);
+    let (cr, cf) = ((corner / 8) as i32, (corner % 8) as i32);
+    let inward = |d: i32, c: i32| if c == 0 { d } else { -d };
+    occ[corner] = Some((def, Piece::King));
+    // the line: along the file, the rank or the long diagonal out of the corner
+    let (dr, df) = *rng.pick(&[(1, 0), (0, 1), (1, 1)]);
+    let (dr, df) = (inward(dr, cr), inward(df, cf));
+    let i = 2 + rng.below(3) as i32;
+    let j = i + 1 + rng.below(3) as i32;
+    let sq = |t: i32| ((cr + t * dr) * 8 + cf + t * df) as usize;
+    if !(0..8).contains(&(cr + j * dr)) || !(0..8).contains(&(cf + j * df)) { return None; }
+    let slider = if dr != 0 && df != 0 { *rng.pick(&[Piece::Bishop, Piece::Queen]) } else { *rng.pick(&[Piece::Rook, Piece::Queen]) };
+    occ[sq(j)] = Some((att, slider));
+    let blocker = *rng.pick(&[Piece::Knight, Piece::Knight, Piece::Bishop, Piece::Rook]);
+    if (blocker == Piece::Bishop && dr != 0 && df != 0) || (blocker == Piece::Rook && (dr == 0 || df == 0)) { return None; }
+    occ[sq(i)] = Some((att, blocker));
+    // the defender's own men hem the king in
+    for (r, f) in [(0, 1), (1, 0), (1, 1)] {
+        let s = ((cr + inward(r, cr)) * 8 + cf + inward(f, cf)) as usize;
+        if s == sq(1) { continue; }
+        if occ[s].is_none() && rng.chance(2, 3) { let pr = s / 8; let p = if pr == 0 || pr == 7 { Piece::Knight } else { *rng.pick(&[Piece::Pawn, Piece::Pawn, Piece::Bishop]) }; occ[s] = Some((def, p)); }
+    }
+    // attacker's king and a hanging enemy piece
+    for _ in 0..40 { let s = rng.below(64) as usize; if occ[s].is_none() { occ[s] = Some((att, Piece::King)); break; } }
+    for _ in 0..(1 + rng.below(2)) { let s = rng.below(64) as usize; if occ[s].is_none() && (1..j).all(|t| s != sq(t)) { occ[s] = Some((def, *rng.pick(&[Piece::Queen, Piece::Rook, Piece::Queen]))); } }
+    if !occ.iter().any(|x| *x == Some((att, Piece::King))) { return None; }
+    let mut pcs = [0u64; 6];
+    let (mut white, mut black) = (0u64, 0u64);
+    for s in 0..64 { if let Some((c, p)) = occ[s] { pcs[p.index()] |= 1 << s; if c == Color::White { white |= 1 << s } else { black |= 1 << s } } }
+    let side = if rng.chance(3, 4) { att } else { def };
     let b = board_from_raw(pcs, white, black, side, 0, None, 0, 1)?;
     if crate::refchess::valid(&b) { Some(b) } else { None }
 }
